@@ -300,7 +300,7 @@ func runCheck(spec *PropSpec, tier string, seed int, accept, verbose bool, overl
 				o.TimeoutMs = 1500
 			}
 		}
-		vs := Solve(g, obls, filepath.Join(workDir, clean(lastN(k, 80))), timeout, 16)
+		vs := Solve(g, obls, filepath.Join(workDir, clean(lastN(k, 80))), timeout, 6)
 		// an obligation the ledger records as discharged that now runs into the time limit is retried once with
 		// four times the limit before it can count as a regression (machine load is not a property violation)
 		var retry []*Obligation
@@ -317,7 +317,7 @@ func runCheck(spec *PropSpec, tier string, seed int, accept, verbose bool, overl
 			}
 		}
 		if len(retry) > 0 {
-			rv := Solve(g, retry, filepath.Join(workDir, clean(lastN(k, 80)), "retry"), 4*timeout, 16)
+			rv := Solve(g, retry, filepath.Join(workDir, clean(lastN(k, 80)), "retry"), 4*timeout, 6)
 			for j, v := range rv {
 				v.Obl = vs[retryIdx[j]].Obl
 				v.Ms += vs[retryIdx[j]].Ms
